@@ -6,7 +6,7 @@
    A loop that is at PRet takes no other action, and its send commutes with every action of the other
    loop and of the parent except the parent's receive; so the replay performs a hidden send only when
    the observed receive needs it (any accepted schedule can be reordered into that shape). *)
-From Hy Require Import lib.Harness model.C04_Framing model.C06_Relay model.C06_E2E gen.ParamsC06.
+From Hy Require Import lib.Harness model.C04_Framing model.C06_Relay model.C06_E2E model.C06_Hook gen.ParamsC06.
 From Coq Require Import ZArith Bool.
 From Coq Require Strings.String.
 Local Open Scope N_scope.
@@ -286,8 +286,24 @@ Definition cout_of (r : rderr + (bytes * option rderr)) : option cout :=
   end.
 (* the client half as observed: fast open, bytes served, how the stream ended (0 FIN, 1 reset), where the model's
    script is cut, the application's buffer size; outcome *)
-Inductive cobs := CObs (fo : bool) (cut endk csplit bsz : N) (tcp : N) (tmsg : String.string) (gotlen gotdg : N)
-                       (fin : N) (fmsg : String.string).
+Inductive cobs :=
+| CObs (fo : bool) (cut endk csplit bsz : N) (tcp : N) (tmsg : String.string) (gotlen gotdg : N)
+       (fin : N) (fmsg : String.string)
+(* a read-deadline history: the peer paused before the byte offsets `pauses` of what it served until a Read of the
+   application had failed with the deadline error; the application retried; the stream ended with FIN *)
+| CObsTo (fo : bool) (cut bsz : N) (pauses : list N) (tcp : N) (tmsg : String.string) (gotlen gotdg : N)
+         (fin : N) (fmsg : String.string).
+
+(* the served bytes with an expired deadline (Fail EOther) at every pause *)
+Fixpoint cut_script (data : bytes) (off : N) (pauses : list N) : script :=
+  match pauses with
+  | [] => [Chunk data]
+  | p :: t =>
+      let k := N.to_nat (p - off) in
+      (if p =? off then [] else [Chunk (firstn k data)]) ++ Fail EOther :: cut_script (skipn k data) p t
+  end.
+Definition client_io_polls (fo : bool) (sc : script) (ns : list nat) : rderr + (bytes * option rderr) :=
+  match tcp_io fo (mkRS sc ctr0) with inl e => inl e | inr c => inr (app_polls c ns) end.
 
 Definition client_ok (out : bytes) (o : cobs) : bool :=
   match o with
@@ -308,6 +324,16 @@ Definition client_ok (out : bytes) (o : cobs) : bool :=
                  (gotlen <=? blen mgot) && (dg32 (firstn (N.to_nat gotlen) mgot) =? gotdg)
           end
       end
+  | CObsTo fo cut bsz pauses tcp tmsg gotlen gotdg fin fmsg =>
+      let served := firstn (N.to_nat cut) out in
+      let sc := cut_script served 0 pauses ++ [Ev [] (Some EEof)] in
+      let ns := repeat (N.to_nat bsz) (N.to_nat (blen served / bsz + 4) + 2 * length pauses) in
+      match cout_of (client_io_polls fo sc ns) with
+      | None => false
+      | Some (COut mtcp mtmsg mgot mfin mfmsg) =>
+          (tcp =? mtcp) && beqb (sbytes tmsg) mtmsg && (fin =? mfin) && beqb (sbytes fmsg) mfmsg &&
+          (blen mgot =? gotlen) && (dg32 mgot =? gotdg)
+      end
   end.
 
 Definition dial_err_run (msg : bytes) : list act := [AReadReq true; ADial (Some msg); AWriteResp false msg; ACloseStream].
@@ -318,7 +344,26 @@ Inductive case :=
 | CE2E (m : mode) (addr reqpad : String.string) (hdr_len hdr_dg : N)
        (ua ub : N) (usegs : list useg) (da db : N) (dsegs : list useg)
        (dial_err : option String.string) (resppad : String.string) (resp_len resp_dg : N)
-       (tr : list obs) (tx rx sul sud sdl sdd : N) (cli : option cobs).
+       (tr : list obs) (tx rx sul sud sdl sdd : N) (cli : option cobs)
+(* level (b), a request a RequestHook intercepted and then the hook aborted / the dial failed, on the real server and client:
+   fast open, abort or failed dial, bytes the hook took off the stream, the dial error, bytes the application read,
+   how its Reads ended (1 = EOF) *)
+| CHookFail (fo abort : bool) (pb : N) (msg : String.string) (got fin : N).
+
+(* the model's run of that connection; the whole stream reaches the client, then FIN *)
+Definition check_hookfail (fo abort : bool) (pb : N) (msg : String.string) (got fin : N) : bool :=
+  let run := if abort then [XReadReq true; XCheck true; XWriteResp true HookMsg; XHookTCP None; XCloseStream]
+             else hooked_dial_error_run (gen_data 7 3 pb) (sbytes msg) in
+  let wr := real_write_resp (repeat x70 128) in
+  match hexec false Logged HReadReq run with
+  | Some HEnd =>
+      (length (hresps run) <=? 1)%nat &&
+      match client_io fo [Chunk (hstream_out wr run); Ev [] (Some EEof)] [4096%nat; 4096%nat] with
+      | inr (g, Some (RStream EEof)) => (blen g =? got) && (fin =? 1)
+      | _ => false
+      end
+  | _ => false
+  end.
 
 Definition check_e2e (m : mode) (addr reqpad : String.string) (hdr_len hdr_dg : N)
        (ua ub : N) (usegs : list useg) (da db : N) (dsegs : list useg)
@@ -377,6 +422,7 @@ Definition check (c : case) : bool :=
       end
   | CE2E m addr reqpad hl hd ua ub us da db ds de rp rl rd tr tx rx sul sud sdl sdd cli =>
       check_e2e m addr reqpad hl hd ua ub us da db ds de rp rl rd tr tx rx sul sud sdl sdd cli
+  | CHookFail fo abort pb msg got fin => check_hookfail fo abort pb msg got fin
   end.
 
 Definition mismatches (l : list case) : list nat := mism_from check 0 l.
